@@ -614,6 +614,49 @@ func checkWarnings(p *Program, r *Report, pk *ssa.Package, runner *ssa.Function)
 			}
 		}
 	}
+	// the looked-up (or default) value reaches the parameter vector on every path of the iteration
+	for _, c := range callsIn(initialise) {
+		if c.Common().StaticCallee() != find {
+			continue
+		}
+		var valEx ssa.Value
+		for _, ref := range refs(c.(*ssa.Call)) {
+			if ex, ok := ref.(*ssa.Extract); ok && ex.Index == 0 {
+				valEx = ex
+			}
+		}
+		nW++
+		var store *ssa.Store
+		if valEx != nil {
+			for _, ref := range refs(valEx) {
+				if st, ok := ref.(*ssa.Store); ok && st.Val == valEx {
+					if _, isElem := st.Addr.(*ssa.IndexAddr); isElem {
+						store = st
+					}
+				}
+			}
+		}
+		key := "sim.Initialise:param-value-applied"
+		if store == nil {
+			r.Fail("R17.5", key, p.Pos(c.Pos()), "the value found for a parameter (or its default) is never placed in the parameter vector")
+			continue
+		}
+		// every path from the lookup to the end of the iteration passes the store
+		loops := findLoops(initialise)
+		l := innermostLoop(loops, c.Block())
+		bad := false
+		if l != nil && c.Block() != store.Block() {
+			reach := reachable(c.Block(), func(from *ssa.BasicBlock, i int) bool { return from.Succs[i] == store.Block() })
+			if reach[l.Header] && !(c.Block() == l.Header) {
+				bad = true
+			}
+		}
+		if bad {
+			r.Fail("R17.5", key, p.Pos(store.Pos()), "on some path through the parameter loop (e.g. when a default is used) the value is not stored in the parameter vector: the model runs with 0 while the log reports the default")
+		} else {
+			r.OK("R17.5", "sim.Initialise: the found-or-default value is stored in the parameter vector on every path")
+		}
+	}
 	// missing input: on the nil edge of the input lookup a warning is appended
 	missing := false
 	eachInstr(initialise, func(b *ssa.BasicBlock, _ int, ins ssa.Instruction) {
